@@ -411,7 +411,7 @@ func init() {
 	check.RegisterProp("C18", func(tier string) []check.Job {
 		depth, sh := 6, 12
 		if tier == "thorough" {
-			depth, sh = 7, 16
+			depth, sh = 8, 16
 		}
 		var jobs []check.Job
 		for _, n := range []int{3, 4} {
